@@ -356,6 +356,8 @@ def norm_call(res_inst, res, args, fn=None):
     if _FROM_RESIDUAL.match(p):
         if p.startswith("<std::option::Option<"):
             return ("enumc", "std::option::Option", "None")
+        if args[0][0] == "agg" and args[0][2] == "Err":
+            return args[0]  # the error built on this very path is the error returned
         return ("propagate", args[0])
     return None
 
@@ -472,6 +474,12 @@ class Evaluator:
             hv = heap.get(v)
             if hv is not None:
                 v = hv
+        # a field of a local aggregate read through a reference and never stored to since the aggregate was built:
+        # the value the aggregate was built with
+        if heap is not None and isinstance(v, tuple) and v[0] == "field" and isinstance(v[1], tuple) and v[1][0] == "localobj" and get is not None:
+            base = get(v[1][1])
+            if isinstance(base, tuple) and base[0] == "agg" and v[2] in base[3]:
+                v = base[4][base[3].index(v[2])]
         return v
 
     def _project1(self, v, e):
@@ -500,6 +508,15 @@ class Evaluator:
                     if v[0] == "agg" and name in v[3]:
                         v = v[4][v[3].index(name)]
                         continue
+                    if v[0] == "downcast" and v[1][0] == "try" and v[1][1][0] == "agg" and e["i"] == 0:
+                        # `?` applied to a Result whose variant is known on this path (e.g. built by an inlined helper)
+                        a = v[1][1]
+                        if v[2] == "Continue" and a[2] == "Ok" and len(a[4]) == 1:
+                            v = a[4][0]
+                            continue
+                        if v[2] == "Break" and a[2] == "Err":
+                            v = a
+                            continue
                     if v[0] == "downcast" and v[1][0] == "agg" and v[1][2] == v[2]:
                         a = v[1]
                         if e["i"] < len(a[4]):
@@ -572,6 +589,11 @@ class Evaluator:
                     if nme == v[2]:
                         return const("int", d)
                 return ("variantof", v[2])
+            if v[0] == "try" and v[1][0] == "agg" and v[1][2] in ("Ok", "Err"):
+                want = "Continue" if v[1][2] == "Ok" else "Break"
+                for d, nme in rv.get("variants") or []:
+                    if nme == want:
+                        return const("int", d)
             if v[0] == "tryopt":
                 ren = {"Continue": "Some", "Break": "None"}
                 return ("discr", v[1], tuple((d, ren.get(n, n)) for d, n in (rv.get("variants") or [])))
@@ -935,6 +957,12 @@ class Walker:
                     elif rv["k"] == "ref" and rv["place"]["p"] == [] and rv["mut"]:
                         # &mut local: the local may change behind our back; model as a ref cell
                         val = self.ev.rvalue(rv, get)
+                        lv = get(rv["place"]["l"])
+                        lty = strip_lt(self.body.locals[rv["place"]["l"]]["ty"])
+                        if isinstance(lv, tuple) and lv[0] in ("agg", "partial") and rv["place"]["l"] > self.body.argc and not lty.startswith(("std::", "core::", "alloc::", "(", "&", "[")):
+                            # a local aggregate (e.g. a value under construction handed to a helper as `&mut self`):
+                            # stores through the reference are stores into that local, exactly like direct ones
+                            val = ("ref", ("localobj", rv["place"]["l"]))
                     else:
                         val = self.ev.rvalue(rv, self._heap_get(st))
                     if st["subst"]:
